@@ -433,8 +433,8 @@ func (w *schemaWalker) walkSchema() {
 // ---------------------------------------------------------------------------
 
 func checkC04(c *Ctx, r *Report) {
-	r.Explanation = "Shape of the encoder decided for every schema type, plus panic freedom and three value clauses: (R1) the kind case list, special types and struct conventions are extracted from makeField's SSA; (R2) every named type of cdr/cdrType is walked exactly as the reflection walk does and every node must be something the encoder handles (non-empty structs, optional members of nillable kind, integer Present, leaf kinds in the extracted case list, strings reached through a context tag) - exhaustive over the schema; (R3) every reflect Field/Index argument in makeField is within range on its path (relational analysis), in particular the CHOICE selector; (R4) the first content octet of a BIT STRING is within 0..7 for every bit length (interval analysis); (R5) BOOLEAN contents are the constants 0xFF / 0x00 on the true / false edge; (R6) errors of the recursive calls are returned, not swallowed, and unsupported constructs return an error; (R7) on every path of makeField that reaches a use of the content encoder one has been stored (definite assignment; the no-match exit of the kind switch is R2's obligation), so e.g. a SEQUENCE whose OPTIONAL members are all absent is encoded, not a nil-interface panic."
-	r.Undecided = []string{"minimal two's-complement INTEGER octets", "identifier/length octet arithmetic of appendTagAndLen", "children lengths summing to the parent length", "byte equality with an independent encoder (all value-level: no rule is offered)"}
+	r.Explanation = "Shape of the encoder decided for every schema type, plus panic freedom and three value clauses: (R1) the kind case list, special types and struct conventions are extracted from makeField's SSA; (R2) every named type of cdr/cdrType is walked exactly as the reflection walk does and every node must be something the encoder handles (non-empty structs, optional members of nillable kind, integer Present, leaf kinds in the extracted case list, strings reached through a context tag) - exhaustive over the schema; (R3) every reflect Field/Index argument in makeField is within range on its path (relational analysis), in particular the CHOICE selector; (R4) the first content octet of a BIT STRING is within 0..7 for every bit length (interval analysis); (R5) BOOLEAN contents are the constants 0xFF / 0x00 on the true / false edge; (R6) errors of the recursive calls are returned, not swallowed, and unsupported constructs return an error; (R9) the number of octets written for a tag number, a content length and an INTEGER value is exactly the minimal number of base-128 / base-256 / two's-complement digits for every value - decided by an exact interval partition of the value range through the counting loops (no value is executed) - and the digits are written most significant first; (R7) on every path of makeField that reaches a use of the content encoder one has been stored (definite assignment; the no-match exit of the kind switch is R2's obligation), so e.g. a SEQUENCE whose OPTIONAL members are all absent is encoded, not a nil-interface panic."
+	r.Undecided = []string{"first identifier octet (class / constructed bits) as a value", "children lengths summing to the parent length", "byte equality with an independent encoder (all value-level: no rule is offered)"}
 	r.Exhaustive = true
 	r.rule("C04.R1", "codec facts extracted from makeField", 3)
 	r.rule("C04.R2", "every schema type is encodable by the reflection walk (exhaustive over cdr/cdrType)", 190)
@@ -443,6 +443,7 @@ func checkC04(c *Ctx, r *Report) {
 	r.rule("C04.R5", "BOOLEAN contents 0xFF / 0x00", 2)
 	r.rule("C04.R6", "errors are returned: recursive calls, unsupported constructs, top level", 4)
 	r.rule("C04.R7", "the content encoder is stored on every path that uses it (no nil-interface call)", 2)
+	r.rule("C04.R9", "tag-number, length and INTEGER octet counts are exactly the minimal number of digits for every value (exact interval partition), digits written most significant first", 6)
 	r.rule("C04.R8", "the encoding depends on the value, its type and the parameters only: no mutable package-level state on the encode path (memo tables keyed by reflect.Type identity excepted)", 8)
 
 	w := newSchemaWalker(c, r, false)
@@ -465,6 +466,7 @@ func checkC04(c *Ctx, r *Report) {
 	// ---- R3 reflect index safety
 	c04ReflectIndex(c, r, mk, "C04.R3")
 	c04ContentAssigned(c, r, mk, "C04.R7")
+	c04DigitCounts(c, r, "C04.R9")
 	codecPurity(c, r, []*ssa.Function{c.fn("cdr/asn", "BerMarshalWithParams"), c.fn("cdr/asn", "BerMarshal")}, modPath+"/cdr/asn", "C04.R8", "encode")
 
 	// ---- R4 bit string
@@ -748,6 +750,7 @@ func checkC05(c *Ctx, r *Report) {
 	r.rule("C05.R2", "every schema type is decodable: members and alternatives tagged, tags unique, leaf kinds handled (exhaustive)", 190)
 	r.rule("C05.R3", "unsupported constructs return an error in both halves", 2)
 	r.rule("C05.R4", "decoder stores values of the right type (reflect Set assignability)", 3)
+	r.rule("C05.R9", "what the encoder writes as tag / length / INTEGER octets holds the whole value (shared with C04.R9): otherwise the decoder reads a different value back", 6)
 	r.rule("C05.R8", "every recursive descent of the decoder starts at the offset where the header was parsed", 4)
 	r.rule("C05.R7", "INTEGER / ENUMERATED contents are decoded as two's complement (sibling of the encoder's signed minimal octets)", 2)
 	r.rule("C05.R6", "decoding depends on the bytes, the target type and the parameters only: no mutable package-level state on the decode path (memo tables keyed by reflect.Type identity excepted)", 6)
@@ -783,6 +786,7 @@ func checkC05(c *Ctx, r *Report) {
 	c16Posts(c, r, "C05.R5")
 	c05IntegerSigned(c, r, "C05.R7")
 	c05DescentOffsets(c, r, "C05.R8")
+	c04DigitCounts(c, r, "C05.R9")
 	codecPurity(c, r, []*ssa.Function{c.fn("cdr/asn", "UnmarshalWithParams"), c.fn("cdr/asn", "Unmarshal")}, modPath+"/cdr/asn", "C05.R6", "decode")
 }
 
